@@ -2,7 +2,7 @@
 current tree through -overlay), runs, model/implementation diff, decision, evidence."""
 import json, os, re, subprocess, sys, time, glob, hashlib, shutil
 
-V = '/verif'
+V = os.environ.get('VERIF_ROOT') or os.path.dirname(os.path.dirname(os.path.abspath(__file__)))
 REPO = os.environ.get('VERIF_REPO', '/repo')
 BUILD = os.environ.get('VERIF_BUILD', V + '/build')
 EVIDENCE_DIR = os.environ.get('VERIF_EVIDENCE_DIR', V + '/evidence')
@@ -129,14 +129,13 @@ def build_ocaml():
     os.makedirs(d, exist_ok=True)
     srcs = sorted(glob.glob(V + '/ocaml/*.ml'))
     vos = glob.glob(COQ + '/theories/**/*.vo', recursive=True)
-    newest = max([os.path.getmtime(x) for x in srcs + vos + [COQ + '/theories/Extract/Extract.v']])
+    newest = max([os.path.getmtime(x) for x in srcs + vos + glob.glob(COQ + '/extract.d/*.ex')])
     exe = d + '/modelrun'
     if os.path.exists(exe) and os.path.getmtime(exe) >= newest:
         return True, 'up to date', 0.0
     t0 = time.time()
-    rc, out, _ = sh('coqc -R %s/theories LV %s/theories/Extract/Extract.v' % (COQ, COQ), cwd=d, timeout=600)
-    for junk in glob.glob(COQ + '/theories/Extract/*.vo') + glob.glob(COQ + '/theories/Extract/*.glob') + glob.glob(COQ + '/theories/Extract/.*.aux') + glob.glob(COQ + '/theories/Extract/*.vok') + glob.glob(COQ + '/theories/Extract/*.vos'):
-        os.remove(junk)
+    write_extract(d + '/Extract.v')
+    rc, out, _ = sh('coqc -R %s/theories LV Extract.v' % COQ, cwd=d, timeout=600)
     if rc != 0:
         return False, out, time.time() - t0
     for s in srcs:
@@ -144,6 +143,22 @@ def build_ocaml():
     order = ['sexp.ml', 'conv.ml'] + [os.path.basename(s) for s in srcs if os.path.basename(s) not in ('sexp.ml', 'conv.ml', 'modelrun.ml')] + ['modelrun.ml']
     rc, out2, _ = sh('ocamlfind ocamlopt -O2 -package zarith -linkpkg -w -a model.mli model.ml %s -o modelrun 2>&1 || ocamlfind ocamlopt -package zarith -linkpkg -w -a model.mli model.ml %s -o modelrun' % (' '.join(order), ' '.join(order)), cwd=d, timeout=900)
     return rc == 0, out + out2, time.time() - t0
+
+
+def write_extract(path):
+    """Extract.v is generated from coq/extract.d/*.ex (line 1: the Require, line 2: NAMES a b c)."""
+    reqs, names = [], []
+    for f in sorted(glob.glob(COQ + '/extract.d/*.ex')):
+        for ln in open(f).read().splitlines():
+            ln = ln.strip()
+            if ln.startswith('NAMES'):
+                names += ln.split()[1:]
+            elif ln and not ln.startswith('(*'):
+                reqs.append(ln)
+    open(path, 'w').write('(* generated from coq/extract.d; directives used: ExtrOcamlBasic (bool, option, unit, prod, list, sumbool, sumor),\n'
+                          '   ExtrOcamlString (ascii -> char, string -> char list). Z, N, positive, Q stay Coq datatypes. *)\n'
+                          'Require Extraction.\nRequire Import ExtrOcamlBasic ExtrOcamlString.\n' + '\n'.join(reqs) +
+                          '\nExtraction Language OCaml.\nExtraction "model.ml" ' + ' '.join(names) + '.\n')
 
 
 def run_model(cmd, cases, outfile, timeout=1800):
